@@ -5,8 +5,7 @@ root + '/' (root == '/' contains everything).  E-PATH: os.path.normpath resolves
 from . import handler, externs
 
 WB = 'proxy/http/server/web.py'
-ASSUMPTIONS = ['serve_static_file is used through a contract (it opens exactly the path it is given; '
-               'content-type guessing, gzip and 404-on-OSError are not re-verified here)',
+ASSUMPTIONS = ['E-FS: open(p) opens exactly the file named p or raises OSError; okResponse / mimetypes through contracts',
                'request paths are decoded as UTF-8; %-sequences are ordinary characters (the code does not decode them)']
 
 INSIDE = ("(q == normpath(self.flags.static_server_dir) or normpath(self.flags.static_server_dir) == '/' or "
@@ -17,17 +16,40 @@ def build(reg):
     handler.add_handler(reg)
     externs.add_text(reg)
     externs.add_ospath(reg)
+    externs.add_path_ufs(reg)
     flags = dict(reg.classes['Flags']['fields'])
     flags.update({'static_server_dir': 'str', 'min_compression_length': 'int', 'enable_static_server': 'bool'})
     reg.klass('Flags', py=None, fields=flags)
     reg.klass('HttpWebServerPlugin', py='proxy.http.server.web:HttpWebServerPlugin',
               fields={'client': ('obj', 'HttpClientConnection'), 'flags': ('obj', 'Flags')})
-    reg.contract('proxy/http/server/plugin.py', 'HttpWebServerBasePlugin.serve_static_file',
-                 params={'path': 'str', 'min_compression_length': 'int', 'compress': 'bool'}, result='mv',
-                 assumed=True, modifies=[], raises={}, ghost_init={'opened': ('seq', 'str')},
-                 ensures=['opened == old(opened) + [path]'],
-                 note='opens exactly `path` (ghost log `opened`); OSError -> 404 inside')
     import z3
+    from pyvc.vals import VSeq, VStr, VOpt, VTuple, HObj
+    from pyvc.engine import fresh_name
+    reg.klass('File', py=None, fields={})
+
+    def open_(ex, st, args, kwargs, fr):
+        # E-FS: open(p, 'rb') opens exactly the file named p (ghost log `opened`) or raises OSError
+        log = st.ghost['opened']
+        st.ghost['opened'] = VSeq(z3.Concat(log.t, z3.Unit(args[0].t)), 'str')
+        return ex.branch(z3.Bool(fresh_name('open.ok')), st, lambda s: ex.val(s.alloc(HObj('File', {}, None)), s),
+                         lambda s: ex.exc(FileNotFoundError, s))
+    for nm in ('open', 'io.open', '_io.open'):
+        reg.externs[nm] = open_
+    reg.contract('<env>', 'File.read', self_cls='File', assumed=True, modifies=[], result='bytes', raises={'OSError': []})
+
+    def guess_type(ex, st, args, kwargs, fr):
+        t = VOpt(z3.Bool(fresh_name('mime?none')), VStr(z3.String(fresh_name('mime')), 'str'))
+        e = VOpt(z3.Bool(fresh_name('enc?none')), VStr(z3.String(fresh_name('enc')), 'str'))
+        return ex.val(VTuple([t, e]), st)
+    reg.externs['mimetypes.guess_type'] = guess_type
+    reg.contract('proxy/http/responses.py', 'okResponse', assumed=True, result='mv', modifies=[], raises={},
+                 params={'content': ('opt', 'bytes'), 'headers': ('opt', ('dict', 'bytes', 'bytes')), 'compress': 'bool',
+                         'min_compression_length': 'int', 'conn_close': 'bool'}, note='response builder: C06')
+    SSF = reg.contract('proxy/http/server/plugin.py', 'HttpWebServerBasePlugin.serve_static_file',
+                       params={'path': 'str', 'min_compression_length': 'int', 'compress': 'bool'}, result='mv',
+                       modifies=[], raises={}, ghost_init={'opened': ('seq', 'str')},
+                       ensures=[('opens-exactly-the-path-it-was-given', 'opened == old(opened) + [path]')],
+                       note='the only file it opens is `path`, as given (no decoding, joining or normalising on the way)')
     from pyvc.engine import SpecFun, from_py
     from proxy.http.responses import NOT_FOUND_RESPONSE_PKT
     reg.spec_consts['NOT_FOUND'] = from_py(NOT_FOUND_RESPONSE_PKT)
@@ -46,5 +68,74 @@ def build(reg):
                  ('outside-is-404', 'len(opened) == len(old(opened)) ==> self.client.buffer == old(self.client.buffer) + [NOT_FOUND]'),
                  ('query-ignored', 'len(opened) == len(old(opened)) + 1 ==> '
                                    '%s == normpath(self.flags.static_server_dir + before_q(utf8dec(path)))' % LAST)],
-        raises={'UnicodeDecodeError': [('nothing-opened', 'opened == old(opened)')]})]
+        raises={'UnicodeDecodeError': [('nothing-opened', 'opened == old(opened)')]}), SSF]
     return T
+
+
+def bounded_checks(reg, tier, seed):
+    """Bounded stand-in with a real directory tree: request targets (plain, dot-segment, percent-encoded,
+    query, repeated separators) against the real _try_static_or_404 + serve_static_file; a target may be
+    answered 200 only if its literal path -- query removed, dot segments resolved, nothing decoded -- names
+    a file inside the root, and then with exactly that file's bytes."""
+    import gzip
+    import os
+    import shutil
+    import tempfile
+    from unittest import mock
+    import posixpath
+    from proxy.http.server.web import HttpWebServerPlugin
+    from proxy.http.parser import HttpParser
+    base = tempfile.mkdtemp(prefix='pyvc-c13-')
+    bad, n = [], 0
+    try:
+        root = os.path.join(base, 'root')
+        os.makedirs(os.path.join(root, 'sub'))
+        files = {os.path.join(root, 'index.html'): b'<html>in</html>', os.path.join(root, 'sub', 'a.txt'): b'inside a',
+                 os.path.join(root, 'sp ace.txt'): b'space', os.path.join(root, '%2e%2e'): b'literal percent name',
+                 os.path.join(base, 'secret.txt'): b'OUTSIDE secret', os.path.join(base, 'rootkit'): b'OUTSIDE sibling prefix'}
+        for pth, content in files.items():
+            with open(pth, 'wb') as f:
+                f.write(content)
+        targets = [b'/index.html', b'/sub/a.txt', b'/sub/../index.html', b'/../secret.txt', b'/sub/../../secret.txt', b'/..', b'/../rootkit',
+                   b'/%2e%2e/secret.txt', b'/..%2fsecret.txt', b'/.%2e/secret.txt', b'/sub/%2e%2e/%2e%2e/secret.txt', b'/%2e%2e', b'/index%2ehtml',
+                   b'/index.html?x=../../secret.txt', b'/?/../../secret.txt', b'//index.html', b'/sub//a.txt', b'/./index.html', b'/sub/', b'/',
+                   b'/sp ace.txt', b'/sp%20ace.txt', b'/nonexistent', b'/../root/index.html', b'/..//secret.txt', b'/%2E%2E/%2E%2E/etc/passwd']
+        for rootspell in (root, root + '/', root + '//', os.path.join(root, 'sub', '..')):
+            for t in targets:
+                p = HttpWebServerPlugin.__new__(HttpWebServerPlugin)
+                p.flags = mock.MagicMock()
+                p.flags.static_server_dir = rootspell
+                p.flags.min_compression_length = 20
+                sent = []
+                p.client = mock.MagicMock()
+                p.client.queue = lambda mv: sent.append(bytes(mv))
+                try:
+                    p._try_static_or_404(t)
+                except UnicodeDecodeError:
+                    continue
+                n += 1
+                case = {'static_server_dir': rootspell.replace(base, '<tmp>'), 'target': t.decode('latin-1')}
+                if len(sent) != 1:
+                    bad.append(dict(case, what='%d replies queued' % len(sent)))
+                    continue
+                r = HttpParser.response(sent[0])
+                literal = posixpath.normpath(posixpath.normpath(root) + t.decode().split('?', 1)[0])
+                inside = literal == posixpath.normpath(root) or literal.startswith(posixpath.normpath(root) + '/')
+                want = files.get(literal) if inside else None
+                if r.code == b'200':
+                    body = r.body or b''
+                    if r.has_header(b'content-encoding') and r.header(b'content-encoding') == b'gzip':
+                        body = gzip.decompress(body)
+                    if want is None:
+                        bad.append(dict(case, what='answered 200 although the literal path %s is %s' % (
+                            literal.replace(base, '<tmp>'), 'outside the root' if not inside else 'not a file'), body=body[:40].decode('latin-1')))
+                    elif body != want:
+                        bad.append(dict(case, what='served bytes differ from the file', body=body[:40].decode('latin-1')))
+                elif r.code != b'404':
+                    bad.append(dict(case, what='status %r' % r.code))
+                elif want is not None:
+                    bad.append(dict(case, what='404 for an existing file inside the root'))
+    finally:
+        shutil.rmtree(base, ignore_errors=True)
+    return [{'name': 'static file server on a real directory tree (targets x spellings of --static-server-dir)', 'bounded': True,
+             'bound': '26 request targets x 4 spellings of the root', 'cases': n, 'violations': bad[:3]}]
